@@ -77,7 +77,17 @@ def checkDraw (c : OCfg) (i : Nat) (st : SSt) (bytes : List Byte) : SSt :=
   let cvs := st.cvs
   let st := { st with vt := vt }
   let sizeOK := decide (cvs.size.width = (vt.w : Int)) && decide (cvs.size.height = (vt.h : Int))
-  if !sizeOK || !canvasWF cvs then { st with stop := true } else
+  -- a canvas without cells (zero width and/or height): nothing may be transmitted; it still counts as the
+  -- previously drawn frame (of a different size) for the next draw.  The terminal keeps its size.
+  if decide (cvs.size.width ≤ 0) || decide (cvs.size.height ≤ 0) then
+    let new := vt.log.drop before.log.length
+    let st := if new.isEmpty then st else st.fail s!"C04@{i} a canvas without cells transmitted {new.length} glyphs"
+    let st := if vt.malformed then st.fail s!"C03@{i} C01@{i} malformed output" else st
+    { st with drawn := some cvs }
+  else
+  -- the properties are claimed for the declared-size protocol only (DESIGN §5 C03): an undeclared size is
+  -- outside the domain even when the terminal happens to have the canvas's size
+  if !st.sized || !sizeOK || !canvasWF cvs then { st with stop := true } else
   -- C04: which glyphs were transmitted
   let base := match st.drawn with
     | some d => if d.size = cvs.size then d else Canvas.new cvs.size
